@@ -413,6 +413,9 @@ func prioGenCase(r *Rng, st *prioStruct, dir string, id int, forced []int) *prio
 		if r.Bool() {
 			c.Carrier = "file"
 			c.Path = filepath.Join(dir, fmt.Sprintf("c%d.json", id))
+			if id%4 == 1 {
+				c.Path = filepath.Join(dir, "app.json") // one well-known path, rewritten before each Parse: every Parse reads the file as it is now
+			}
 		} else {
 			c.Carrier = "b64"
 		}
